@@ -203,7 +203,7 @@ def gen_x_cases(tier, seed):
             elif r < 0.8:
                 toks.append(f"s={rng.randrange(ncol)}")
             else:
-                toks.append(f"c{rng.choice('lr')}{rng.randrange(4)}={rng.choice([1, 1, 2, 3, 7, 1000000007])}")
+                toks.append(f"c{rng.choice('lr')}{rng.randrange(4)}={rng.choice([1, 1, 2, 3, 7, 40])}")
         out.append(",".join(toks))
     return out
 
@@ -214,7 +214,7 @@ ZERO_WITNESSES = [
     "R1n,L2n,cr0=0,R1n",
     "R1n,L2n,cr0=0,R1s",
     "L1n,R2n,cl0=0,L0n",
-    "R1n,R1n,R2n,L0n,L0n,cl0=0,cr0=5,L2s",
+    "R2n,R1n,R1n,L0n,cl1=0,L0s",
     "R1n,L2n,L2n,cr0=0,R2s",
 ]
 
